@@ -105,6 +105,39 @@ def first_error(log):
     return {"error": log[-1500:]}
 
 
+LAST_GOOD = os.path.join(WORK, "gen_lastgood")
+
+
+def keep_last_good_generation():
+    import shutil
+    os.makedirs(LAST_GOOD, exist_ok=True)
+    for f in os.listdir(os.path.join(COQ_DIR, "Gen")):
+        if f.endswith(".v"):
+            src, dst = os.path.join(COQ_DIR, "Gen", f), os.path.join(LAST_GOOD, f)
+            try:
+                if not os.path.exists(dst) or open(src).read() != open(dst).read():
+                    shutil.copyfile(src, dst)
+            except OSError:
+                pass
+
+
+def restore_last_good_generation(ctx):
+    import shutil
+    if not os.path.isdir(LAST_GOOD):
+        return False
+    n = 0
+    for f in os.listdir(LAST_GOOD):
+        src, dst = os.path.join(LAST_GOOD, f), os.path.join(COQ_DIR, "Gen", f)
+        try:
+            if not os.path.exists(dst) or open(src).read() != open(dst).read():
+                shutil.copyfile(src, dst)
+                n += 1
+        except OSError:
+            return False
+    ctx.log("search: the last generation that succeeded is put back (%d file(s)); it is regenerated on the next run" % n)
+    return True
+
+
 def stub_in_log(log):
     """Does the build fail in a generated file that the translator replaced by its non-compiling stand-in?"""
     for m in re.finditer(r'File "([^"]*Gen/[^"]+\.v)"', log):
@@ -253,6 +286,8 @@ def run_check(mod, argv):
 
     with Lock():
         gen_state, msg = regenerate(ctx)
+        if gen_state == "ok":
+            keep_last_good_generation()
         if gen_state == "failed":
             breaks.append({"kind": "translator", "detail": msg})
         else:
@@ -260,6 +295,10 @@ def run_check(mod, argv):
             if not ok and gen_state == "partial" and stub_in_log(log):
                 # this property's cone needs a file the translator could not regenerate
                 breaks.append({"kind": "translator", "detail": msg})
+                # the verdict stands; for the search for a failing input the last generation that succeeded is put
+                # back, so that model and specification can still be evaluated against the changed code
+                if restore_last_good_generation(ctx):
+                    build(ctx, mod.TARGETS)
             elif not ok:
                 err = first_error(log)
                 if "file" in err:
